@@ -5,6 +5,7 @@
 import DemesVerif.Ops.Core
 import DemesVerif.Model.Ms
 import DemesVerif.Spec.MsSem
+import DemesVerif.Spec.C08
 namespace Demes.Ops.Ms
 open Lean Demes Demes.Wire Demes.Ms Demes.Ops.Core
 
@@ -185,6 +186,15 @@ def dispatch? (op : String) (j : Json) : Option Json :=
     match getStrs j "tokens", getQ j "N0" with
     | some toks, some n0 => semResJ (Demes.Spec.MsSem.msSem toks n0)
     | _, _ => failJ "tokens / N0"
+  else if op = "ms_tame" then some <|
+    -- is the command inside the fragments on which `fromMs_sem` / `fromMs_sem2` are proved?
+    match getStrs j "tokens" with
+    | some toks =>
+      match Demes.Spec.MsSem.parse toks with
+      | .ok pr => okJ (Json.mkObj [("tame1", .bool (Demes.Spec.C08.Tame' pr)), ("tame2", .bool (Demes.Spec.C08.Tame2 pr)),
+                               ("tame3", .bool (Demes.Spec.C08.Tame3 pr))])
+      | .error e => Json.mkObj [("err", .str e)]
+    | none => failJ "tokens"
   else if op = "graph_sem" then some <|
     withGraph j "graph" (fun g =>
       match getOptStrs j "names" with
